@@ -280,13 +280,28 @@ def SPECS():
         return [("stream-restored", z3.Implies(sent_back(pre), z3.And(sent_back(post), post.rem == pre.rem))),
                 ("no-gain", post.rem <= pre.rem), wf(pre, post)]
 
+    def mlen(snap, a):
+        return snap.th.get(f"{a['module'].info['oid']}.len")
+
+    def grew_by_one(pre, post, a):
+        l0, l1 = mlen(pre, a), mlen(post, a)
+        if l0 is None or l1 is None:
+            return []
+        return [("repair-keeps-every-statement:one-item-more", l1 == l0 + 1)]
+
+    def grew_by_at_most_one(pre, post, a):
+        l0, l1 = mlen(pre, a), mlen(post, a)
+        if l0 is None or l1 is None:
+            return []
+        return [("no-statement-lost", z3.Or(l1 == l0, l1 == l0 + 1))]
+
     sp["parse_module_post_hook"] = dict(
         params={"module": "cont", "tokens": "tokens"},
         exits=[
             Exit("return", name="return-keep-parsing", res=hook_res(True),
-                 post=lambda pre, post, a, r: [("progress", progressed(pre, post)), wf(pre, post)]),
+                 post=lambda pre, post, a, r: [("progress", progressed(pre, post)), wf(pre, post)] + grew_by_one(pre, post, a)),
             Exit("return", name="return-stop", res=hook_res(False),
-                 post=lambda pre, post, a, r: [("exhausted", dead(post)), wf(pre, post)]),
+                 post=lambda pre, post, a, r: [("exhausted", dead(post)), wf(pre, post)] + grew_by_at_most_one(pre, post, a)),
             Exit("Exception", post=hook_exc_post),
             Exit("ParseError", post=lambda pre, post, a, r: [wf(pre, post)]),
             lexerror()])
